@@ -224,6 +224,24 @@ def run_edits(ctx, seeds, gens):
         "generic-self": "class A<T extends A<T>> { public constructor() -> A<T> = default; } function main() -> void { A<A<int>> a = null; }",
         "derived-first": "class D extends B { public constructor() -> D { super(); return this; } } class B { public constructor() -> B = default; } function main() -> void { D d = new D(); }",
     }
+    # inheritance cycles with tails leading into them, under many names (class registries are hash
+    # maps: which class is visited first depends on the names)
+    crng = ctx.rng("cycles")
+    names = ["A", "B", "C", "LeafE", "Node", "Zed", "Alpha", "Mid", "Q1", "Q2", "Base", "Derived", "X9", "Kappa"]
+    for ci in range(ctx.n(40, 400)):
+        k = crng.randint(1, 4)          # cycle length
+        t = crng.randint(0, 3)          # tail classes leading into the cycle
+        ns = crng.sample(names, k + t)
+        cyc, tail = ns[:k], ns[k:]
+        decl = []
+        for i, nme in enumerate(cyc):
+            decl.append("class %s extends %s { public constructor() -> %s = default; }" % (nme, cyc[(i + 1) % k], nme))
+        prev = cyc[0]
+        for nme in tail:
+            decl.append("class %s extends %s { public constructor() -> %s = default; }" % (nme, prev, nme))
+            prev = nme
+        crng.shuffle(decl)
+        shapes["cycle-%d-%d-%d" % (k, t, ci)] = "\n".join(decl) + "\nfunction main() -> void { }\n"
     for k, v in shapes.items():
         cases.append(("shape:" + k, v))
     res = front.run_batch("analyse", [c[1] for c in cases], per_proc=600 if ctx.quick() else 3000,
@@ -236,7 +254,7 @@ def run_edits(ctx, seeds, gens):
         if r["crash"] is not None:
             c = r["crash"]
             if c[0] == "timeout":
-                key = "hang:front:" + kind
+                key = "hang:front:" + re.sub(r"[-\d]+$", "", kind)
             elif c[0] == "sanitizer":
                 key = c[1]
             elif c[0] == "signal":
